@@ -2,6 +2,8 @@
 from __future__ import annotations
 
 import re
+import tempfile
+import shutil
 from pathlib import Path
 
 from vsym.pathex import And, Eq, Implies, Not, Or
@@ -119,6 +121,56 @@ def _pat(p):
     return p["pattern"] if isinstance(p, dict) else p
 
 
+RULESETS = {
+    "strict": {"directories": {"src": {"allow": [r".*\.py$"]}, "docs": {"allow": [r".*\.md$"]}}},
+    "inverted": {"directories": {"src": {"deny": [{"pattern": r".*\.py$", "reason": "r"}]}, "docs": {"deny": [{"pattern": r".*\.md$", "reason": "r"}]}}},
+    "global-only": {"global_deny": [{"pattern": r".*\.txt$", "reason": "r"}]},
+    "no-rules": {},
+}
+TREE = ("src/app.py", "src/notes.txt", "docs/guide.md", "docs/tool.py")
+
+
+def h_successive_rule_sets(ctx):
+    """Two lint runs of the same project root in one process, each with its own rule set (its own Linter object,
+    its own configuration file): the second run follows the second rule set."""
+    import yaml
+    import src.linter_config.ignore as ign
+    from src.api import Linter
+    first = ctx.pick("first_rule_set", tuple(RULESETS))
+    second = ctx.pick("second_rule_set", tuple(RULESETS))
+    wrap = ctx.pick("wrapping", ("file-placement", "file_placement"))
+    d = Path(tempfile.mkdtemp(prefix="c18s-"))
+    try:
+        (d / ".git").mkdir()
+        for rel in TREE:
+            (d / rel).parent.mkdir(parents=True, exist_ok=True)
+            (d / rel).write_text("x = 1\n")
+        got = []
+        for i, name in enumerate((first, second)):
+            cf = d / ("rules_%d.yaml" % i)
+            cf.write_text(yaml.safe_dump({wrap: RULESETS[name]} if RULESETS[name] else {"nesting": {"enabled": True}}))
+            ign.clear_ignore_parser_cache()
+            vs = Linter(config_file=cf, project_root=d).lint(d, rules=["file-placement"])
+            got = sorted({str(Path(v.file_path)) if not str(v.file_path).startswith(str(d)) else str(Path(v.file_path).relative_to(d)) for v in vs})
+            got = [g for g in got if g in TREE]
+    finally:
+        shutil.rmtree(d, True)
+        ign.clear_ignore_parser_cache()
+    cfg = RULESETS[second]
+    want = []
+    for rel in TREE:
+        covering = [k for k in cfg.get("directories", {}) if covers(k, rel)]
+        if covering:
+            rule = cfg["directories"][max(covering, key=depth)]
+            bad = any(matches(_pat(p), rel) for p in rule.get("deny", [])) or ("allow" in rule and not any(matches(p, rel) for p in rule["allow"]))
+        else:
+            bad = any(matches(_pat(p), rel) for p in cfg.get("global_deny", []))
+        if bad:
+            want.append(rel)
+    ctx.cover("reported" if want else "clean")
+    ctx.require("each-run-follows-its-own-rule-set", got == sorted(want), first=first, second=second, got=got, want=sorted(want))
+
+
 def h_invalid_pattern(ctx):
     from src.linters.file_placement.linter import FilePlacementLinter
     bad = ctx.pick("bad_pattern", ("[unclosed", "(", "*.py", "a{2,1}", "(?P<x>a)(?P<x>b)", "\\"))
@@ -164,6 +216,10 @@ def obligations(tier):
            bounds="forked: %d paths x rule-set shape (none / 1-2 directory rules over %d keys / +global / global only) x presence and content of deny/allow "
                   "lists over %d regexes x config wrapping (3) x absolute/relative target; nothing symbolic (string matching through re)" % (len(PATHS), len(DIR_KEYS), len(PATTERNS)),
            timeout=900 if tier == "quick" else 3000, workers=14, must_cover=("reported", "clean")),
+        Ob(name="K4-successive-rule-sets-on-one-root", engine="pathex", harness=h_successive_rule_sets,
+           functions=["Linter(config_file, project_root).lint(rules=['file-placement'])", "FilePlacementRule.check/_get_or_create_linter/_linter_cache", "FilePlacementLinter"],
+           bounds="forked: 4 rule sets x 4 rule sets x 2 section spellings, two fresh Linter objects on one project root in one process",
+           timeout=300, workers=8, must_cover=("reported", "clean")),
         Ob(name="K3-invalid-patterns-rejected", engine="pathex", harness=h_invalid_pattern,
            functions=["PatternValidator.validate_config (+helpers)"],
            bounds="6 syntactically invalid regexes x 5 places in the configuration", timeout=60, workers=2, must_cover=("rejected",)),
